@@ -121,6 +121,9 @@ class AsyncioTransportStreamSocketAdapter(AsyncStreamTransport):
 
     async def send_all_from_iterable(self, iterable_of_data: Iterable[bytes | bytearray | memoryview]) -> None:
         self.__transport.writelines(iterable_of_data)
+        # On some Python versions, writelines() does not notify the protocol when data remains in the write buffer.
+        # Re-applying the limits calls pause_writing() if needed.
+        self.__transport.set_write_buffer_limits(0)
         await self.__protocol.writer_drain()
 
     async def send_eof(self) -> None:
